@@ -163,9 +163,12 @@ fn case<T: Obs>(c: &mut Ctx, x: T, dur: TimeDelta, tag: &str) {
     let w = wall_line(&x);
     let leap = x.subsec() >= 1_000_000_000;
     let in_win = (I64_MIN..=I64_MAX).contains(&w);
+    // Props/C17.lean `leap_stamp_refused_although_it_fits`: with a leap-second field on the wall-clock
+    // second -9223372038 the line position fits i64 but `timestamp_nanos_opt` is None
+    let refused_corner = leap && in_win && x.utc_secs() as i128 + x.off() as i128 == -9_223_372_038;
     // the crate's own stamp must be the wall-clock line position (relation taken from C02)
     if let Some(cs) = x.crate_stamp() {
-        let mine = if in_win { Some(w as i64) } else { None };
+        let mine = if in_win && !refused_corner { Some(w as i64) } else { None };
         if cs != mine {
             c.fail(
                 "timestamp_nanos_opt of the wall-clock reading differs from (secs+offset)*10^9+subsec",
@@ -219,7 +222,21 @@ fn case<T: Obs>(c: &mut Ctx, x: T, dur: TimeDelta, tag: &str) {
                         _ => "err:other",
                     }
                 ));
-                if expect != Some(e) {
+                if refused_corner && e == RoundingError::TimestampExceedsLimit && expect.is_none() {
+                    // the second class of leap-second deviations (theorems `zoned_result_leap`,
+                    // `leap_stamp_refused_although_it_fits`); raised only on that one wall-clock second
+                    c.count("leap:stamp refused although the line position fits i64");
+                    c.fail(
+                        "leap-second input: TimestampExceedsLimit although the wall-clock timestamp fits in 64 bits",
+                        &format!(
+                            "{:?}.duration_{}({} ns) = Err(TimestampExceedsLimit): wall-clock stamp {} >= i64::MIN",
+                            x,
+                            if nm == "up" { "round_up" } else { nm },
+                            span,
+                            w
+                        ),
+                    );
+                } else if expect != Some(e) {
                     c.fail(&what("failure reported although/other than the property says"), &format!("{ctxs}: got {:?}, property says {:?}", e, expect));
                 }
             }
@@ -242,7 +259,7 @@ fn case<T: Obs>(c: &mut Ctx, x: T, dur: TimeDelta, tag: &str) {
                 if r.off() != x.off() {
                     c.fail(&what("offset changed"), &ctxs);
                 }
-                if span <= 0 || span > I64_MAX || !in_win {
+                if span <= 0 || span > I64_MAX || !in_win || refused_corner {
                     c.fail(&what("Ok although the property demands an error"), &format!("{ctxs} -> {:?}", r));
                     continue;
                 }
@@ -279,6 +296,20 @@ fn case<T: Obs>(c: &mut Ctx, x: T, dur: TimeDelta, tag: &str) {
                     // >= 10^9; the same deviation on any other input is reported by the oracles below.
                     if crossed {
                         c.count("leap:rounded upwards past the end of the leap second");
+                    }
+                    // the exact account (theorems `naive_result_leap`, `zoned_result_leap`): the timestamp of
+                    // the result is the specified multiple m, except m - 10^9 when field + (m - w) >= 2*10^9
+                    let m = op.spec(w, span);
+                    let passes_end = x.subsec() as i128 + (m - w) >= 2 * NS;
+                    let told = if passes_end { m - NS } else { m };
+                    if wall_line(&r) != told {
+                        c.fail(
+                            &what("leap-second input: result is neither the multiple nor (past the end of the leap second) one second before it"),
+                            &format!("{ctxs} -> {:?}: stamp {}, theorem says {}", r, wall_line(&r), told),
+                        );
+                    }
+                    if passes_end != crossed || (r_leap != ((x.subsec() as i128 + (m - w)) >= NS && !passes_end)) {
+                        c.fail(&what("leap-second input: the result is a leap-second value exactly when it stays in the same leap second"), &format!("{ctxs} -> {:?}", r));
                     }
                     if wall_line(&r) != op.spec(w, span) {
                         c.count("leap:timestamp of the result is not the specified multiple (F19)");
@@ -667,6 +698,33 @@ pub fn run(c: &mut Ctx) {
             case(c, u.naive_utc(), TimeDelta::nanoseconds(span), "leap");
             case(c, u.with_timezone(&FixedOffset::east_opt(off).unwrap()), TimeDelta::nanoseconds(span), "leap");
         }
+    }
+
+    // the wall-clock second -9223372038 with a leap-second field (reachable at offsets = 43 mod 60):
+    // line position >= i64::MIN for fields >= 1_145_224_192, stamp refused by the crate
+    {
+        let n_corner = c.n(60, 600);
+        for i in 0..n_corner {
+            let off = 60 * c.rng.range(-1439, 1438) as i32 + 43;
+            let utc = -9_223_372_038i64 - off as i64;
+            let frac = match i % 4 {
+                0 => *c.rng.pick(&[1_145_224_191u32, 1_145_224_192, 1_145_224_193, 1_500_000_000, 1_999_999_999, 1_000_000_000]),
+                _ => 1_000_000_000 + c.rng.nanos(),
+            };
+            let span = gen_span(c, &specials);
+            if let Some(u) = DateTime::<Utc>::from_timestamp(utc, frac) {
+                case(c, u.with_timezone(&FixedOffset::east_opt(off).unwrap()), TimeDelta::nanoseconds(span), "leap-corner");
+            }
+        }
+        // the kernel-checked instance `leap_stamp_refused_although_it_fits`
+        let u = DateTime::<Utc>::from_timestamp(-9_223_372_081, 1_500_000_000).unwrap();
+        let f = u.with_timezone(&FixedOffset::east_opt(43).unwrap());
+        if guard(|| f.duration_trunc(TimeDelta::seconds(1))) == Ok(Err(RoundingError::TimestampExceedsLimit)) {
+            c.count("leap:example 1677-09-21T00:11:60.5Z at +00:00:43 .duration_trunc(1 s) = Err(TimestampExceedsLimit) (reproduced)");
+        } else {
+            c.count("leap:example 1677-09-21T00:11:60.5Z at +00:00:43 is no longer refused");
+        }
+        case(c, f, TimeDelta::seconds(1), "leap-corner");
     }
 
     // the kernel-checked instance of the finding (Props/C17.lean), replayed on the crate
